@@ -50,7 +50,7 @@ impl Monitor for C03 {
         "fault_enumeration"
     }
     fn num_cases(&self, tier: Tier) -> u64 {
-        tier.pick(600, 15_000)
+        tier.pick(4_800, 60_000)
     }
     fn floors(&self, tier: Tier) -> Vec<(&'static str, u64)> {
         vec![
